@@ -112,9 +112,9 @@ class G:
                 out = args[0]
                 for a in args[1:]:
                     out += self.r.pick([", ", ",", "; ", ";", " ;", ";\n  "]) + a
-                return self.r.pick(["mat", "f", "cases"]) + "(" + g.msp(True) + out + self.r.pick(["", ";", ","]) + g.msp(True) + ")"
+                return self.r.pick(["mat", "vec", "cases"]) + "(" + g.msp(True) + out + self.r.pick(["", ";", ","]) + g.msp(True) + ")"
             sep = self.r.pick([", ", ",", " , ", "; ", ",\n  "])
-            return self.r.pick(["f", "sqrt", "mat", "vec", "cases"]) + "(" + g.msp(True) + sep.join(args) + g.msp(True) + ")"
+            return self.r.pick(["binom", "sqrt", "mat", "vec", "cases"]) + "(" + g.msp(True) + sep.join(args) + g.msp(True) + ")"
         if r < 12:
             return self.matom_simple() + self.r.pick(["_", "^"]) + self.matom_simple()
         if r < 13:
